@@ -119,27 +119,61 @@ func checkC07(e *Engine, r *Report) {
 		}
 		r.Check("R5:monotone@"+FnName(shrink), "value-shape monotone-moves", "zoneShrinkUsage moves requests to `zone | extra nodes` (a superset of their current zone)",
 			e.InstrPos(mc), shrink, okD, "", true)
-		// (rule 5) strict requests move only when types are unchanged
+		// (rule 5) strict requests move only into zones of their own types: decided in the
+		// mask algebra. D = types added by the expansion; the zone a strict request sits in
+		// already has only requested types (invariant, established by findInitialZone).
 		typesObj := e.FuncObj(pkgLM, "Request.Types")
 		strictObj := e.FuncObj(pkgLM, "Request.IsStrict")
-		assume := func(cond ssa.Value) (bool, bool) {
-			if call, ok := isCallToObj(cond, strictObj); ok && call != nil {
-				return true, true
-			}
-			if b, ok := cond.(*ssa.BinOp); ok && b.Op == token.EQL {
-				if _, ok := isCallToObj(b.X, typesObj); ok {
-					return true, false
+		expandFn := e.Fn(pkgLM, "Allocator.expand")
+		me := newMaskEval(e, shrink)
+		var addedTypes, reqTypes, zoneTypes *sx
+		fZT := e.Field(pkgLM, "Zone", "types")
+		AllInstrs(shrink, func(in ssa.Instruction) {
+			switch x := in.(type) {
+			case *ssa.Extract:
+				if c, ok := x.Tuple.(*ssa.Call); ok && x.Index == 1 && c.Common().StaticCallee() == expandFn {
+					addedTypes = me.eval(x)
 				}
-				if _, ok := isCallToObj(b.Y, typesObj); ok {
-					return true, false
+			case *ssa.Call:
+				if callObj(x.Common()) == typesObj && sameValue(callArgs(x)[0], callArgs(mc)[2]) {
+					reqTypes = me.eval(x)
+				}
+			case *ssa.UnOp:
+				if f, _ := loadedField(x); f != nil && f == fZT {
+					zoneTypes = me.eval(x)
 				}
 			}
-			return false, false
+		})
+		if addedTypes == nil || expandFn == nil {
+			r.Undecided("R2:strict-move@"+FnName(shrink), "R2 strict-types", "zoneShrinkUsage expands with a.expand()", e.Pos(shrink.Pos()), shrink, "no expand() result found")
+		} else if reqTypes == nil {
+			// the moved request's types are never consulted: only non-strict requests may reach the move
+			r.Unreachable("R2:strict-move@"+FnName(shrink), "R2 strict-types",
+				"a strict request is moved only into a zone whose added types are all among its requested types", shrink, nil,
+				func(in ssa.Instruction) bool { return in == mc.(ssa.Instruction) }, func(cond ssa.Value) (bool, bool) {
+					if call, ok := isCallToObj(cond, strictObj); ok && call != nil {
+						return true, true
+					}
+					return false, false
+				})
+		} else {
+			var given []vennFact
+			if zoneTypes != nil {
+				given = append(given, subset(zoneTypes, reqTypes))
+			}
+			goal := []vennFact{subset(addedTypes, reqTypes)}
+			guard := me.guardAssumption(given, goal)
+			assume := func(cond ssa.Value) (bool, bool) {
+				if call, ok := isCallToObj(cond, strictObj); ok && call != nil {
+					return true, true
+				}
+				return guard(cond)
+			}
+			target := mc.(ssa.Instruction)
+			r.Unreachable("R2:strict-move@"+FnName(shrink), "R2 strict-types",
+				"a strict request is moved only when a dominating comparison implies (types added by the expansion) ⊆ (its requested types)", shrink, nil,
+				func(in ssa.Instruction) bool { return in == target }, assume)
 		}
-		target := mc.(ssa.Instruction)
-		r.Unreachable("R2:strict-move@"+FnName(shrink), "R2 strict-types",
-			"a strict request whose types differ from the expanded zone's types is never moved", shrink, nil,
-			func(in ssa.Instruction) bool { return in == target }, assume)
 	}
 	// (c) filter semantics
 	{
